@@ -70,11 +70,19 @@ type Node struct {
 	inc int
 
 	smu          sync.Mutex
+	curShared    *Instance // copy of cur for concurrent readers (stress goroutines), guarded by smu
 	lastSnapNano int64
 	lastISNano   int64
 	crashInfo    string // description of the last storage-boundary crash
 	crashMid     bool
 	everStarted  bool
+}
+
+// Current returns the node's current instance (safe for concurrent readers).
+func (n *Node) Current() *Instance {
+	n.smu.Lock()
+	defer n.smu.Unlock()
+	return n.curShared
 }
 
 func (n *Node) Running() bool {
@@ -302,6 +310,9 @@ func (c *Cluster) StartNode(id string, bootstrap map[string]string) error {
 		}
 	}
 	n.cur = in
+	n.smu.Lock()
+	n.curShared = in
+	n.smu.Unlock()
 	if err := in.raft.Start(); err != nil {
 		c.rec.Add(Event{Kind: "fault", Node: id, Inc: n.inc, Fault: &FaultInfo{What: "start", Err: err.Error(), Image: n.crashInfo != ""}})
 		c.StartErrors = append(c.StartErrors, fmt.Sprintf("%s Start: %v", id, err))
